@@ -36,6 +36,15 @@ def boxes():
     return out
 
 
+def boxes_shared_names():
+    """the same functions, but every box of a given arity carries the same name (anonymous lambdas all print alike):
+    what a box computes is its function, not its name"""
+    from discopy import cartesian
+    out = {k: cartesian.Box("op", ARITY[k][0], ARITY[k][1], FUN[k]) for k in ARITY}
+    out[5], out[6], out[7] = cartesian.COPY, cartesian.SWAP, cartesian.DISCARD
+    return out
+
+
 def proj(d):
     def bid(b):
         return BUILTIN[b.name] if b.name in BUILTIN else int(b.name[1:])
@@ -83,15 +92,15 @@ def raw_equal(lhs, rhs, xs):
 
 def observations(states, c, rnd):
     from discopy import cartesian
-    B = boxes()
+    B, BS = boxes(), boxes_shared_names()
     rows = []
     for k, dabs in enumerate(states):
-        real = build(dabs, B, k % 2)
+        real = build(dabs, BS, 1) if k % 3 == 2 else build(dabs, B, k % 2)
         n = len(dabs["dom"])
         tuples = list(itertools.product(INPUTS + (NONE,), repeat=n))
         for xs in (tuples if len(tuples) <= c["tuples"] else rnd.sample(tuples, c["tuples"])):
             exc, res = call(real, xs)
-            rows.append(row("call", xs, exc, res, d=dabs))
+            rows.append(dict(row("call", xs, exc, res, d=dabs), shared=int(k % 3 == 2)))
     N = c["N"]
     for l in range(N + 1):
         for r in range(N + 1 - l):
@@ -193,7 +202,8 @@ def replay(path):
     from discopy import cartesian
     with core.workdir("C19-replay") as work:
         if t["kind"] in ("call", "square"):
-            exc, res = call(build(t["d"], B, 0), t["xs"])
+            real = build(t["d"], boxes_shared_names(), 1) if t.get("shared") else build(t["d"], B, 0)
+            exc, res = call(real, t["xs"])
             t2 = row("call", t["xs"], exc, res, d=t["d"])
         elif t["kind"] == "swap":
             exc, res = call(cartesian.Swap(t["l"], len(t["xs"]) - t["l"]), t["xs"])
